@@ -162,8 +162,18 @@ func hasSymbolic(args []Value) bool {
 	return false
 }
 
+// callBody interprets fn from its SSA even if an intrinsic is registered for it.
+func (r *Run) callBody(fn *ssa.Function, args []Value, caller *frame) Value {
+	r.noIntrinsic = fn
+	return r.callFnPlain(fn, args, nil, caller)
+}
+
 func (r *Run) callFnPlain(fn *ssa.Function, args []Value, env []Value, caller *frame) Value {
 	fi := r.E.info(fn)
+	if r.noIntrinsic == fn {
+		r.noIntrinsic = nil
+		return r.execBody(fn, fi, args, env, caller)
+	}
 	if r.initPhase && fn.Synthetic == "package initializer" && caller != nil {
 		// initialisers of imported packages: isolated, so that one failing package does not stop the rest
 		if fn.Pkg != nil && skipInit[fn.Pkg.Pkg.Path()] {
@@ -189,6 +199,10 @@ func (r *Run) callFnPlain(fn *ssa.Function, args []Value, env []Value, caller *f
 		}
 		panic(unsupported("no body and no model for " + fi.name))
 	}
+	return r.execBody(fn, fi, args, env, caller)
+}
+
+func (r *Run) execBody(fn *ssa.Function, fi *fnInfo, args []Value, env []Value, caller *frame) Value {
 	if fn.TypeParams().Len() > 0 && len(fn.TypeArgs()) == 0 {
 		panic(unsupported("uninstantiated generic " + fi.name))
 	}
@@ -801,11 +815,58 @@ func (r *Run) indexScalars(elems []*smt.Term, idx *smt.Term, it types.Type) *smt
 	return r.selectChain(elems, i64)
 }
 
-// selectChain builds ite(idx==0,e0, ite(idx==1,e1,...)); equal neighbours are merged by Ite itself.
+// selectChain reads elems[idx]. Runs of identical elements are tested as ranges, and when the
+// table has few distinct values the result is a short ite over "idx in set" conditions.
 func (r *Run) selectChain(elems []*smt.Term, idx *smt.Term) *smt.Term {
-	res := elems[len(elems)-1]
-	for j := len(elems) - 2; j >= 0; j-- {
-		res = r.B.Ite(r.B.Eq(idx, smt.Const(idx.W, uint64(j))), elems[j], res)
+	B := r.B
+	type run struct {
+		lo, hi int
+		e      *smt.Term
+	}
+	var runs []run
+	for j, e := range elems {
+		if n := len(runs); n > 0 && runs[n-1].e == e {
+			runs[n-1].hi = j
+		} else {
+			runs = append(runs, run{j, j, e})
+		}
+	}
+	inRun := func(ru run) *smt.Term {
+		if ru.lo == ru.hi {
+			return B.Eq(idx, smt.Const(idx.W, uint64(ru.lo)))
+		}
+		c := B.Ule(idx, smt.Const(idx.W, uint64(ru.hi)))
+		if ru.lo > 0 {
+			c = B.And(B.Uge(idx, smt.Const(idx.W, uint64(ru.lo))), c)
+		}
+		return c
+	}
+	// group runs by element
+	order := []*smt.Term{}
+	conds := map[*smt.Term]*smt.Term{}
+	count := map[*smt.Term]int{}
+	for _, ru := range runs {
+		if _, ok := conds[ru.e]; !ok {
+			order = append(order, ru.e)
+			conds[ru.e] = smt.False
+		}
+		conds[ru.e] = B.Or(conds[ru.e], inRun(ru))
+		count[ru.e] += ru.hi - ru.lo + 1
+	}
+	// default = most frequent element
+	def := order[0]
+	for _, e := range order {
+		if count[e] > count[def] {
+			def = e
+		}
+	}
+	res := def
+	for i := len(order) - 1; i >= 0; i-- {
+		e := order[i]
+		if e == def {
+			continue
+		}
+		res = B.Ite(conds[e], e, res)
 	}
 	return res
 }
